@@ -68,6 +68,29 @@ fn voicing(engine0: &Engine, rng: &mut Rng, corpus: &Corpus, evs: &mut Vec<Value
                         "dur": dur, "nodata": nodata}));
         evs.push(json!({"ev": "isolated", "what": "thr[1]", "spectrum_equal": digest2(&sp) == digest2(&base.0), "lpf_equal": digest2(&lpf) == digest2(&base.2)}));
     }
+    // rendering: the engine's waveform is what the public vocoder makes of the trajectories, voiced frames as pulses at
+    // F0 limited to 20 Hz .. 20 kHz, "no F0" frames as noise (a voiced frame whose log-F0 undershoots ln 20 after a
+    // downward transposition is still voiced).  Stage 0 voices at 0 dB only (the linear gain is not readable back exactly).
+    if engine.voices.stream_metadata(0).option.iter().all(|o| !o.starts_with("GAMMA")) {
+        engine.condition.set_volume(0.0);
+        engine.condition.set_msd_threshold(1, thr[rng.below(thr.len())] as f64);
+        if rng.chance(0.85) {
+            engine.condition.set_additional_half_tone(*rng.pick(&[-24.0, -24.0, -24.0, -23.0, -21.5]));
+        }
+        engine.condition.set_gv_weight(1, *rng.pick(&[1.0, 1.5, 2.0]));
+        let (sp, lf0, lpf) = trajectories(&engine, &lines)?;
+        let low = lf0.iter().filter(|f| f[0] != NODATA && f[0] < MIN_LF0).count();
+        let limited: Vec<Vec<f64>> = lf0.iter().map(|f| vec![if f[0] == NODATA { NODATA } else { f[0].clamp(MIN_LF0, MAX_LF0) }]).collect();
+        let nlpf = if engine.voices.global_metadata().num_streams > 2 { engine.voices.stream_metadata(2).vector_length } else { 0 };
+        let c = &engine.condition;
+        let fp = c.get_fperiod();
+        let voc = jbonsai::vocoder::Vocoder::new(engine.voices.stream_metadata(0).vector_length, nlpf, 0, false, c.get_sampling_frequency(),
+                                                 c.get_alpha(), c.get_beta(), 1.0, fp);
+        let direct = jbonsai::speech::SpeechGenerator::new(fp, voc, sp, limited, lpf).generate_all();
+        let w = engine.synthesize(&lines[..]).map_err(|e| e.to_string())?;
+        evs.push(json!({"ev": "render", "equal": digest(&w) == digest(&direct), "frames": lf0.len(), "voiced_below_20hz": low,
+                        "unvoiced": lf0.iter().filter(|f| f[0] == NODATA).count()}));
+    }
     // a GV weight change on the log-F0 stream leaves the other streams alone as well
     engine.condition.set_gv_weight(1, rng.uniform(0.0, 2.0));
     let (sp, _, lpf) = trajectories(&engine, &lines)?;
@@ -134,7 +157,8 @@ fn gain(engine0: &Engine, rng: &mut Rng, corpus: &Corpus, evs: &mut Vec<Value>) 
         let w = engine.synthesize(&lines[..]).map_err(|e| e.to_string())?;
         let t = trajectories(&engine, &lines)?;
         if w.len() != w0.len() {
-            evs.push(json!({"ev": "gain", "v_milli": v_milli, "gain_udb": 0, "resid_ppb": 2_000_000_000i64, "getv_nano": 0, "len_equal": false, "traj_equal": false}));
+            evs.push(json!({"ev": "gain", "v_milli": v_milli, "gain_udb": 0, "resid_ppb": 2_000_000_000i64, "getv_nano": 0, "len_equal": false, "traj_equal": false,
+                            "gain_err_e13": 2_000_000_000i64, "resid_e13": 2_000_000_000i64}));
             continue;
         }
         let ratio = w[imax] / w0[imax];
@@ -143,6 +167,8 @@ fn gain(engine0: &Engine, rng: &mut Rng, corpus: &Corpus, evs: &mut Vec<Value>) 
         let q = |x: f64| if x.is_finite() { x.round().clamp(-2.0e9, 2.0e9) as i64 } else { 2_000_000_000 };
         evs.push(json!({"ev": "gain", "v_milli": v_milli, "gain_udb": q(20.0 * ratio.abs().log10() * 1e6 * ratio.signum()), "resid_ppb": q(resid * 1e9),
                         "getv_nano": q((getv - v) * 1e9), "len_equal": true,
+                        // "to rounding accuracy": the factor against 10^(v/20) and the sample-wise residual, in units of 1e-13
+                        "gain_err_e13": q((ratio / 10f64.powf(v / 20.0) - 1.0).abs() * 1e13), "resid_e13": q(resid * 1e13),
                         "traj_equal": digest2(&t.0) == digest2(&t0.0) && digest2(&t.1) == digest2(&t0.1) && digest2(&t.2) == digest2(&t0.2)}));
     }
     Ok(())
